@@ -339,7 +339,7 @@ class ServerWorld:
         CL.select = Sel
         conf = self.clients[cid]["conf"]       # what the user configured (the harness's own record, not the library's attributes)
         self.ev.append(dict(ev="cnew", now=self.now(), c=cid, a=self.aid(addr), connTimeout=int(round(conf["ct"] * 1e4)), hascb=int(bool(callback)),
-                            ka=int(round(conf["ka"] * 1e4)), mt=int(round(conf["mt"] * 1e4))))
+                            ka=int(round(conf["ka"] * 1e4)), mt=int(round(conf["mt"] * 1e4)), period=int(self.tick_us * self.client_every // 100)))
         if callback == "login":
             # the usual pattern: the application sends its first request from inside the connect callback - it travels in the same datagram as the challenge response
             def cb(ok):
@@ -371,7 +371,7 @@ class ServerWorld:
         cb = (lambda ok: c["cb"].append(bool(ok))) if c["hascb"] else None
         conf = c["conf"]
         self.ev.append(dict(ev="cnew", now=self.now(), c=cid, a=self.aid(c["addr"]), connTimeout=int(round(conf["ct"] * 1e4)), hascb=int(c["hascb"]),
-                            ka=int(round(conf["ka"] * 1e4)), mt=int(round(conf["mt"] * 1e4))))
+                            ka=int(round(conf["ka"] * 1e4)), mt=int(round(conf["mt"] * 1e4)), period=int(self.tick_us * self.client_every // 100)))
         c["status"] = None
         c["cl"].connect(("srv", 1), cb) if cb else c["cl"].connect(("srv", 1))
         if c["cl"].conn is not None:
@@ -399,6 +399,16 @@ class ServerWorld:
 
     def blocked_now(self):
         return self.block_cfg if self.block_cfg is not None else self.ctxt.blocklist
+
+    client_every = 1        # the application polls its client every n-th world tick ...
+    one_update = False      # ... with exactly one update() per poll (the documented "once per game frame"), instead of once per arrived datagram plus one
+
+    def cut_client(self, cid):
+        """the environment silences the link of this client in both directions from now on"""
+        c = self.clients[cid]
+        c["cut"] = True
+        c["deaf"] = True
+        self.ev.append(dict(ev="ccut", now=self.now(), c=cid, period=int(self.tick_us * self.client_every // 100)))
 
     def resend_challenge(self, cid):
         """an honest client transmits its challenge response again, as a FRESH message (new datagram and message numbers, sealed under the session key,
@@ -449,7 +459,7 @@ class ServerWorld:
         nin = len(c["sock"].inbox)
         r0 = cl.stats().received
         try:
-            for _ in range(len(c["sock"].inbox) + 1):
+            for _ in range(1 if self.one_update else len(c["sock"].inbox) + 1):
                 cl.update()
         except Exception as e:
             err = type(e).__name__
@@ -479,8 +489,9 @@ class ServerWorld:
                         if c["addr"] == x[2] and not c["deaf"]:
                             c["sock"].inbox.append(x[1])
                 self.delayed_out = [x for x in self.delayed_out if x[0] > self.tickno]
-            for cid in list(self.clients):
-                self.client_tick(cid)
+            if self.tickno % self.client_every == 0:
+                for cid in list(self.clients):
+                    self.client_tick(cid)
         self.to_server += [x[1:] for x in self.delayed_in if x[0] <= self.tickno]
         self.delayed_in = [x for x in self.delayed_in if x[0] > self.tickno]
         pend = self.to_server
